@@ -248,5 +248,32 @@ theorem protocolGen_eq (s : Sess) (t : TaskSpec) (hc : s.crashed = false) :
   cases hr : (runPhases F P g cfg s t).1 <;> rw [hr] at key <;>
     simp [raisedToExc, protocolHandlers, catches, excIsException, key]
 
+/-! ### pytask_execute_build -/
+
+theorem buildLoopGen_eq : ∀ (picks : List Nat) (so : Sorter) (s : Sess),
+    buildLoopGen F P g cfg so s picks = Engine.buildLoop F P g cfg so s picks
+  | [], so, s => by simp [buildLoopGen, Engine.buildLoop]
+  | t :: ts, so, s => by
+    unfold buildLoopGen Engine.buildLoop
+    simp only [buildLoopOps, iterGen]
+    cases hs : s.stop <;> cases hcr : s.crashed <;> cases ha : so.isActive <;> simp
+    cases hl : Sorter.legalBatchB so 1 [tv t] <;> simp
+    cases hf : Project.find? P t with
+    | none => simp
+    | some spec =>
+      simp only [protocolGen_eq s spec hcr]
+      exact buildLoopGen_eq ts _ _
+
+theorem buildGen_eq (w : World) (picks : List Nat) : buildGen F P cfg w picks = Engine.build F P cfg w picks := by
+  unfold buildGen Engine.build
+  simp only [buildLoopGen_eq]
+  rcases createDag P cfg with _ | ⟨g, marks⟩
+  · rfl
+  · simp only []
+    rcases Sorter.fromDag g isTaskV (prioFn P) with _ | so
+    · rfl
+    · simp only []
+      rcases Engine.buildLoop F P g cfg so { w := w, skipMarks := marks } picks with _ | ⟨so', s⟩ <;> rfl
+
 end EngineGen
 end Pytask
